@@ -36,7 +36,8 @@ const S: i64 = 1_000_000_000;
 
 fn gen_rows(rng: &mut Rng, now: i64, first_id: i64) -> Vec<RowSpec> {
     let n = 20 + rng.usize(120);
-    let base_hour = now / H * H - *rng.pick(&[0i64, 0, 2, 30]) * H;
+    // mostly recent data; a sixth of the datasets lie around the epoch (pre-1970 rows have negative timestamps)
+    let base_hour = if rng.chance(1, 6) { rng.range(-2, 3) * H } else { now / H * H - *rng.pick(&[0i64, 0, 2, 30]) * H };
     (0..n)
         .map(|i| {
             let hour = base_hour - rng.range(0, 4) * H;
@@ -320,7 +321,7 @@ async fn dataset_case(ctx: &Ctx, out: &mut Outcome, rng: &mut Rng, idx: u64) {
                         l1_target_size: 6_000,
                         l2_target_size: 20_000,
                         max_levels: 3,
-                        retention_days: 3650,
+                        retention_days: 36_500, // far beyond any dataset (some lie around 1970): retention must not thin out the data under test
                         downsample_after_days: 7,
                         downsample_resolution: Duration::from_secs(60),
                         check_interval: Duration::from_secs(60),
